@@ -719,6 +719,15 @@ def c16(tier, replay):
                     [{"do": "send", "line": c}, {"do": "send", "line": "ucinewgame"}]):
             sessions.append(pre + probe)
             shard.append(nprobe + j)
+    # a game that walks out and home again, probed after a command that ended in the position its FIRST move leads to (whatever
+    # the record remembers beside the table - a last-written entry, a cached count - survives a clear that only empties the map)
+    for ci, cyc in enumerate(["g1f3 g8f6 f3g1 f6g8", "b1c3 b8c6 c3b1 c6b8", "g1f3 b8c6 f3g1 c6b8"]):
+        probe = [{"do": "send", "line": "position startpos moves " + cyc},
+                 {"do": "go", "line": "go wtime 475 btime 475 movestogo 1", "extra": {"probe": "cyc%d" % ci, "timed": True}}]
+        first = "position startpos moves " + cyc.split()[0]
+        for pre in ([], [{"do": "send", "line": first}], [{"do": "send", "line": first}, {"do": "go", "line": "go"}, {"do": "send", "line": "ucinewgame"}]):
+            sessions.append(pre + probe)
+            shard.append(nprobe + 40 + ci)
     # probes whose move list contains promotions of every kind (a replayed under-promotion must not depend on anything
     # but its letter), asked of a fresh process and of one whose logging was switched on before (setoption DebugLogLevel
     # Info is the one option the engine has; whatever is formatted for the log is only evaluated then)
